@@ -40,7 +40,7 @@ func propCleanDirected(t *vt.T) {
 	}
 	for i := 0; i < n; i++ {
 		name := fmt.Sprintf("%sf%d.dat", dirs[t.Pick("dir", len(dirs))], i)
-		kind := t.Pick("ingredient", 6)
+		kind := t.Pick("ingredient", 7)
 		sb := &subj{expected: true}
 		switch kind {
 		case 0: // partial in progress
@@ -86,6 +86,14 @@ func propCleanDirected(t *vt.T) {
 			bad[0].Fault = FFlip
 			w.Request(bad)
 			t.Class("ingredient-failed")
+		case 6: // delivered long ago: leaves nothing but (possibly nested) empty directories behind
+			v := mkv(name, "")
+			sb.fs = &fileState{cur: v, parts: tile(v, s.psize)}
+			w.Request(sb.fs.parts)
+			w.Settle()
+			s.observe()
+			sb.acked = sb.fs.parts
+			t.Class("ingredient-delivered")
 		case 5: // partial whose sender went away (never finished); not expected to arrive
 			v := mkv(name, "")
 			sb.fs = &fileState{cur: v, parts: tile(v, s.psize)}
@@ -110,6 +118,18 @@ func propCleanDirected(t *vt.T) {
 		t.Note("advance %v", age)
 		s.AdvanceChecked(age)
 		s.observe()
+	}
+	if t.Bool("freshDeliveryBeforeCleaning") {
+		// a delivery right before the cleaning: its directory is young and, once the file has
+		// left, empty apart from whatever old sub-directories it has
+		v := mkv(dirs[t.Pick("freshDir", len(dirs))]+"fresh.dat", "")
+		fs := &fileState{cur: v, parts: tile(v, s.psize)}
+		s.files = append(s.files, fs)
+		subs = append(subs, &subj{fs: fs, expected: true, acked: fs.parts})
+		w.Request(fs.parts)
+		w.Settle()
+		s.observe()
+		t.Class("fresh-delivery-before-cleaning")
 	}
 	rounds := t.IntRange("cleanRounds", 1, 2)
 	for r := 0; r < rounds; r++ {
